@@ -4,7 +4,7 @@
    (C04_no_user_message_until_decision_step, _run); that the failing step leaves the actor suspended with nothing in flight,
    and the effects of each directive, are checked on every run by the lockstep harness (step equality with the
    model, monitor C04:user-message-before-decision), not by theorem. *)
-From MV Require Import Lib.ListX Kernel.Model Kernel.Run Kernel.Lifecycle Kernel.Status Kernel.Registry Kernel.Suspend Kernel.Queue Kernel.NoUser.
+From MV Require Import Lib.ListX Kernel.Model Kernel.Run Kernel.Lifecycle Kernel.Status Kernel.Registry Kernel.Suspend Kernel.Queue Kernel.NoUser Kernel.Watch Kernel.Directive.
 Open Scope Z_scope.
 
 (* a suspended mailbox never hands a user message to the actor: with nothing in flight, the runner of a
@@ -90,6 +90,60 @@ Theorem C04_registry_wellformed : forall roles ls s os,
 Proof. intros roles ls s os H. eapply RI_reachable; [apply RI_init|exact H]. Qed.
 Print Assumptions C04_registry_wellformed.
 
+(* "and then exactly the decided directive takes effect", the deciding step — for every role table and from ANY state:
+   when a supervisor object (not terminated) runs an accident record r, the directive is the victim's own strategy if the
+   record carries one, otherwise the entry of the supervisor's directive list at the victim's accident count (the last entry
+   once the list is exhausted: the restart limit), otherwise — no strategy anywhere — the record is escalated; that
+   directive is shown as the FIRST observation of the step (ODec supervisor victim d count), and the mailbox of the object
+   registered under the victim's address holds one more message from the supervisor carrying exactly that directive
+   (restart request / resume request / non-graceful terminate request; for "restart all" every registered child of the
+   supervisor gains a restart request). Escalate, or no strategy: the object registered under the supervisor's parent
+   gains the SAME record (victim object, address and strategy unchanged), and beyond the root the process crashes. *)
+Theorem C04_decided_directive_takes_effect : forall roles s u a e r s' o,
+  get s u = Some a -> a_inflight a = Some (MS e) -> e_msg e = SAccident r -> a_st a <> Terminated ->
+  kstep roles s (LRun (Z.of_nat u)) = Some (s', o) ->
+  let esc :=
+    (a_parent a <> rNone -> forall v, lookup (a_parent a) (registry s) = Some v -> v <> u ->
+       gains (carries_rec r (a_tok a) (a_parent a)) v s s') /\
+    (a_parent a = rNone -> crashed s' = true /\ In OCrash o) in
+  match decision roles a r (acc_count s r) with
+  | Some d =>
+      hd_error o = Some (ODec (a_tok a) (ar_vref r) d (acc_count s r)) /\
+      match d with
+      | DRestart | DResume | DStop =>
+          forall v, lookup (ar_vref r) (registry s) = Some v -> gains (carries d (a_tok a) (ar_vref r)) v s s'
+      | DRestartAll =>
+          forall c v, In c (a_children a) -> lookup c (registry s) = Some v -> gains (carries DRestartAll (a_tok a) c) v s s'
+      | DEscalate => esc
+      end
+  | None => esc
+  end.
+Proof. exact directive_step. Qed.
+Print Assumptions C04_decided_directive_takes_effect.
+
+(* "Resume continues with the same instance and the queued messages": the step in which a living actor, registered under
+   its address, takes the resume request out of its mailbox shows nothing and leaves the actor alive under the SAME
+   instance number, its mailbox no longer suspended, its system queue and its user queue exactly as they were (the
+   post-state holds pop1 of that record: the runner takes the next message — a system message first, otherwise, the
+   mailbox being released, the oldest user message). *)
+Theorem C04_resume_continues_same_instance_and_queue : forall roles s v b e s' o,
+  get s v = Some b -> a_inflight b = Some (MS e) -> e_msg e = SResumeReq -> a_st b = Alive ->
+  lookup (a_tok b) (registry s) = Some v ->
+  kstep roles s (LRun (Z.of_nat v)) = Some (s', o) ->
+  o = [] /\ exists b0 : actor, get s' v = Some (pop1 b0) /\ a_susp b0 = false /\
+    a_st b0 = Alive /\ a_inst b0 = a_inst b /\ a_tok b0 = a_tok b /\ a_userq b0 = a_userq b /\ a_sysq b0 = a_sysq b /\ a_inflight b0 = None.
+Proof. exact resume_request_applied. Qed.
+Print Assumptions C04_resume_continues_same_instance_and_queue.
+
+(* "Stop terminates it": the step in which a living or restarting actor takes a terminate request leaves it terminating,
+   or terminated at once, under its address (the request is then handed to every child: Kernel.Hierarchy / C05) *)
+Theorem C04_stop_request_makes_receiver_terminating : forall roles s v b e g s' o,
+  get s v = Some b -> a_inflight b = Some (MS e) -> e_msg e = STerminate g -> (a_st b = Alive \/ a_st b = Restarting) ->
+  kstep roles s (LRun (Z.of_nat v)) = Some (s', o) ->
+  exists b', get s' v = Some b' /\ st_ge_terminating (a_st b') = true /\ a_tok b' = a_tok b.
+Proof. exact stop_request_applied. Qed.
+Print Assumptions C04_stop_request_makes_receiver_terminating.
+
 (* the scripted scenario of the DESIGN probe: B fails on message 2 while message 3 is already queued;
    in the model (= repaired code) message 3 is handled only after the supervisor's Resume decision *)
 Definition c04_roles : list role :=
@@ -109,6 +163,24 @@ Example C04_window_example :
 Proof.
   eexists. eexists. eexists. split; [vm_compute; reflexivity|]. split; [vm_compute; reflexivity|].
   split; [repeat split|apply nrpb_sound; vm_compute; reflexivity].
+Qed.
+
+(* non-vacuity of C04_decided_directive_takes_effect and of C04_resume_continues_same_instance_and_queue on the same scenario:
+   after the failing step the supervisor (object 2, address 0) has the accident record in flight; it decides Resume (its
+   list [DResume], accident count 1), and the victim (object 3, registered under address 1) gains the resume request; one
+   step later the victim has that request in flight, is alive and registered under its address *)
+Example C04_directive_example :
+  exists s os a e r, krun c04_roles kinit [LSpawn 0 0; LRun 2; LRun 3; LTell 1 2; LTell 1 3; LRun 3] = Some (s, os) /\
+    get s 2 = Some a /\ a_inflight a = Some (MS e) /\ e_msg e = SAccident r /\ a_st a <> Terminated /\
+    decision c04_roles a r (acc_count s r) = Some DResume /\ lookup (ar_vref r) (registry s) = Some 3%nat /\
+    exists s2 o2 b e2, kstep c04_roles s (LRun 2) = Some (s2, o2) /\ get s2 3 = Some b /\ a_inflight b = Some (MS e2) /\
+      e_msg e2 = SResumeReq /\ a_st b = Alive /\ lookup (a_tok b) (registry s2) = Some 3%nat /\ a_susp b = true /\ length (a_userq b) = 1%nat.
+Proof.
+  eexists. eexists. eexists. eexists. eexists. split; [vm_compute; reflexivity|].
+  split; [vm_compute; reflexivity|]. split; [vm_compute; reflexivity|]. split; [vm_compute; reflexivity|].
+  split; [vm_compute; discriminate|]. split; [vm_compute; reflexivity|]. split; [vm_compute; reflexivity|].
+  eexists. eexists. eexists. eexists. split; [vm_compute; reflexivity|]. split; [vm_compute; reflexivity|].
+  repeat split; vm_compute; reflexivity.
 Qed.
 
 (* The defect found while proving C03's "no user message in between" (repaired in /repo, see known_findings.json): a Resume
